@@ -1167,7 +1167,7 @@ pub fn completeness_gaps(entries: &[Box<dyn TyDyn + Send + Sync>]) -> Vec<String
         }
     }
     let mut found = vec![];
-    walk(std::path::Path::new("/repo/src"), &mut found);
+    walk(&std::path::Path::new(&crate::engine::repo_dir()).join("src"), &mut found);
     for f in found {
         if !names.contains(&f) && !NON_DATA_TYPES.contains(&f.as_str()) {
             gaps.push(f);
